@@ -118,6 +118,97 @@ def job_word(w, tier, seed):
     return ck.export()
 
 
+def word_write_spec(R, w, val16):
+    """post-state of 'write val16 to word w' per the slot table (the same reading of the statement as Word[w])"""
+    R2 = dict(R)
+    for f, pos, ln, kind in PR.W[w]:
+        vb = z3.Extract(pos + ln - 1, pos, val16)
+        if kind == 'rw':
+            R2[f] = z3.ZeroExt(R[f].size() - ln, vb)
+        elif kind == 'lp':
+            R2['lp'] = z3.If(vb == 1, z3.BitVecVal(0, R['lp'].size()), R['lp'])
+            R2['bcn'] = z3.If(vb == 1, z3.BitVecVal(0, R['bcn'].size()), R['bcn'])
+        elif kind == 'dbl':
+            R2['flm'] = z3.ZeroExt(15, vb)
+            R2['fvl'] = z3.ZeroExt(15, vb)
+        elif kind == 'acce':
+            R2[f] = z3.Concat(z3.SignExt(28, vb), z3.Extract(31, 0, R[f]))
+    return R2
+
+
+def job_field_row(i, tier, seed):
+    """instructions that write a status/config word or one of its fields directly (mov #imm5, icr; mov #imm16, st0/st1/st2/
+    cfgi/cfgj; the load family): the post-state is the word table's - exactly the named field(s) take the operand, the
+    read-only and write-1-to-clear slots behave as in Word[w], nothing else in the machine changes."""
+    from spec import forms
+    E = env()
+    ck = core.Check('C20', 'model_checking', tier, seed)
+    if not hasattr(E, 'forms'):
+        E.forms = forms.rows(build.REPO)
+    row, form = E.rows[i], E.forms[i]
+    if row['name'] != form['name']:
+        ck.engine_errors.append('decoder.h row %d is %s but executed table has %s' % (i, form['name'], row['name']))
+        return ck.export()
+    nm = row['name']
+    ops = [p for p in form['ops'] if p[0] in ('at', 'const')]
+    types = tuple(p[1] for p in ops)
+    o, e = z3.BitVec('o', 16), z3.BitVec('e', 16)
+    F = lambda k: forms.field(o, e, ops[k])
+    R = E.R()
+    extra = []
+    zx = lambda t, n: z3.ZeroExt(n - t.size(), t)
+    if nm == 'mov_icr' and types == ('Imm5',):
+        spec = word_write_spec(R, 'icr', zx(F(0), 16))
+        what = 'mov #imm5, icr == writing the icr word with imm5 in bits 0..4 (bit 4 = write-1-to-clear loop flag; the nest counter is read-only)'
+    elif nm == 'mov' and types == ('Imm16', 'Register'):
+        REGW = {8: 'st0', 9: 'st1', 10: 'st2', 14: 'cfgi', 15: 'cfgj'}      # operand.h Register order
+        idx = F(1)
+        extra = [z3.Or(*[idx == k for k in REGW])]
+        spec = None
+        posts = [(idx == k, word_write_spec(R, w_, e)) for k, w_ in REGW.items()]
+        spec = {}
+        for f in R:
+            t = posts[-1][1][f]
+            for c_, d_ in reversed(posts[:-1]):
+                t = t if d_[f] is t else z3.If(c_, d_[f], t)
+            spec[f] = t
+        what = 'mov #imm16, st0/st1/st2/cfgi/cfgj == writing that word (Word[w] semantics)'
+    elif nm.startswith('load_') and len(types) == 1:
+        v = F(0)
+        spec = dict(R)
+        tgt = {'load_ps': [('ps[0]', v)], 'load_stepi': [('stepi', v)], 'load_stepj': [('stepj', v)], 'load_page': [('page', v)], 'load_modi': [('modi', v)], 'load_modj': [('modj', v)],
+               'load_movpd': [('pcmhi', v)], 'load_ps01': [('ps[0]', z3.Extract(1, 0, v) if v.size() >= 4 else v), ('ps[1]', z3.Extract(3, 2, v) if v.size() >= 4 else v)]}.get(nm)
+        if tgt is None:
+            return ck.export()
+        for f, t in tgt:
+            spec[f] = zx(t, R[f].size())
+        what = '%s: the named field takes the immediate (its low bits, at the field width), nothing else changes' % nm
+    else:
+        return ck.export()
+    A = E.inv() + [E.match_pred(row, o)] + extra
+    try:
+        r = E.run_row(i, o, e, A)
+    except Exception as x:
+        ck.inconclusive.append('row %d %s: %r' % (i, nm, x))
+        return ck.export()
+    ck.ninstr += r['ninstr']
+    ck.nstates += 1
+    if r['st'] is None:
+        ck.prove('FieldWrite[%d %s]' % (i, nm), A, z3.BoolVal(False), vars={'o': o, 'e': e})
+        return ck.export()
+    post = E.post_regs(r['st'])
+    g = [post[f] == spec[f] for f in post if not post[f].eq(spec[f])]
+    g.append(E.post_dmem(r['st']) == E.pre_dmem())
+    g.append(z3.Not(kit.exit_cond(type('X', (), {'exits': r['exits']})())))
+    vars_ = {'o': o, 'e': e}
+    vars_.update({('r.' + f): t for f, t in R.items() if t.size() <= 64})
+    names = [f for f in post if not post[f].eq(spec[f])]
+    ck.prove('FieldWrite[%d %s%s]' % (i, nm, types), A, z3.And(*g), vars=vars_, replay=interp.spec_replayer(E, i, names) if names else None, sample=what)
+    from spec import regs_inv
+    ck.prove('FieldWrite.inv[%d %s]' % (i, nm), A, z3.And(*regs_inv.inv(post)), vars=vars_, witness=False)
+    return ck.export()
+
+
 _twin = None
 
 
@@ -302,13 +393,15 @@ def run(tier, seed):
     ck = core.Check('C20', 'model_checking', tier, seed)
     E = env()
     ck.funcs.update(['RegisterState::Get<W>/Set<W> for W in ' + ','.join(PR.ORDER), 'PseudoRegister/ProxySlot/Redirector/ArrayRedirector/DoubleRedirector/RORedirector/AccEProxy/LPRedirector templates',
-                     'Disassembler::DsmArRn/DsmArStep/DsmArpRni/DsmArpRnj/DsmArpStepi/DsmArpStepj', 'Config::GenerateRandomState (ar/arp decoding of the test generator)', 'test_verifier loader (Set<ar0..arp3>)', 'Interpreter::RnAddress'])
+                     'Disassembler::DsmArRn/DsmArStep/DsmArpRni/DsmArpRnj/DsmArpStepi/DsmArpStepj', 'Config::GenerateRandomState (ar/arp decoding of the test generator)', 'test_verifier loader (Set<ar0..arp3>)', 'Interpreter::RnAddress', 'mov_icr(Imm5)', 'mov(Imm16, Register) for st0/st1/st2/cfgi/cfgj', 'load_ps/stepi/stepj/page/modi/modj/movpd/ps01'])
     ck.assumptions += ['pre-state satisfies Inv (fields within hardware widths); Inv is re-proved after every Set<W>',
-                       'layout oracle: spec/pseudo_regs.py (transcribed bit positions; the statement of C20 defines the slot kinds)',
+                       'layout oracle: spec/pseudo_regs.py (transcribed bit positions; the statement of C20 defines the slot kinds)', 'FieldWrite[row]: instructions that write a word or one field of it directly (mov #imm5,icr; mov #imm16 to st0/st1/st2/cfgi/cfgj; the load family) against the same table: only the named slots change, write-1-to-clear / read-only slots as in Word[w]; other instructions that reach Set<W> through RegFromBus16 with a computed value are covered by C01',
                        'disassembler: std::to_string / ConvertArStepAndOffset calls are observed as events (their integer argument), the name strings themselves are data and not checked']
     ck.bounds += ['all 2^16 written values x all register states: no bound']
     res = core.pmap(job_word, [(w, tier, seed) for w in PR.ORDER])
     res += core.pmap(job_dsm, [(tier, seed)])
+    FW = ('mov_icr', 'mov', 'load_ps', 'load_stepi', 'load_stepj', 'load_page', 'load_modi', 'load_modj', 'load_movpd', 'load_ps01')
+    res += core.pmap(job_field_row, [(r_['i'], tier, seed) for r_ in E.rows if r_['name'] in FW])
     res += [core._job((job_generator, (tier, seed)))]
     for r in res:
         if '__error__' in r:
